@@ -67,6 +67,7 @@ type Goroutine struct {
 	waitDesc string
 	wake     func() bool // returns true when the goroutine can proceed (and performs the op)
 	exitPanic *panicRec
+	vc        vclock // race detection
 }
 
 // goPanic is thrown (as a host panic) by helpers to start an interpreted panic.
